@@ -483,6 +483,22 @@ class World:
             FeatureGates.set(op["feature"], op["value"])
             self.expected_gates[0 if op["feature"] == "sourcemap_enabled" else 1] = op["value"]
             return ("ok", None, None)
+        if k == "testctx":
+            # someone's unit test in the same process: PyTeal's public comparison contexts
+            import contextlib as _cl
+
+            with _cl.ExitStack() as st:
+                if op["which"] in ("expr", "both"):
+                    st.enter_context(TealComponent.Context.ignoreExprEquality())
+                if op["which"] in ("slot", "both"):
+                    st.enter_context(TealComponent.Context.ignoreScratchSlotEquality())
+                e = pt.Int(1)
+                a = pt.TealSimpleBlock([pt.TealOp(e, pt.Op.int, 1)])
+                b = pt.TealSimpleBlock([pt.TealOp(e, pt.Op.int, 1 if op.get("inner") != "assert" else 2)])
+                if op.get("inner") == "raise":
+                    raise builder.UserFault("test body raised inside the comparison context")
+                assert a == b, "expected == actual failed"
+            return ("ok", None, None)
         if k == "churn":
             # unrelated code in the same process allocating PyTeal objects in bulk
             n = op.get("n", 10)
